@@ -64,6 +64,12 @@ func evalDecodeInProc(d decodeCase) string {
 	if d.Inc != "" {
 		inc, _ := unhex(d.Inc)
 		os.WriteFile(filepath.Join(dir, "inc.yml"), inc, 0o644)
+		// files that exist but cannot be loaded, with names that sort BEFORE Taskfile.yml (the merge walks the
+		// files in sorted order: a vertex left behind by a failed load must not be taken for the root)
+		os.WriteFile(filepath.Join(dir, "Abad.yml"), []byte("version: '3'\ntasks: [\n"), 0o644)
+		os.WriteFile(filepath.Join(dir, "Anover.yml"), []byte("tasks: {it: {cmds: [echo]}}\n"), 0o644)
+		os.WriteFile(filepath.Join(dir, "Acyc.yml"), []byte("version: '3'\nincludes: {back: ./Taskfile.yml}\ntasks: {it: {cmds: [echo]}}\n"), 0o644)
+		os.WriteFile(filepath.Join(dir, "Amiss.yml"), []byte("version: '3'\nincludes: {gone: ./nowhere.yml}\ntasks: {it: {cmds: [echo]}}\n"), 0o644)
 	}
 	res := make(chan string, 1)
 	go func() {
@@ -245,6 +251,8 @@ var decShapes = []string{
 	"{sh: 'false', msg: 5}", "windows/amd64", "/", "linux/", "a/b/c", "{os: x}", "{taskfile: ./inc.yml}", "{taskfile: }", "{taskfile: ./inc.yml, vars: {A: {}}}",
 	"{taskfile: ./inc.yml, aliases: x}", "{taskfile: ./inc.yml, excludes: [default]}", "{taskfile: ./inc.yml, excludes: [it, default], aliases: [y]}",
 	"{taskfile: ./inc.yml, flatten: true, excludes: [default]}", "{taskfile: ./inc.yml, internal: true, dir: ./nowhere}", "[default]", "[it]", "{taskfile: ./inc.yml, excludes: {a: b}}", "{taskfile: ./inc.yml, flatten: yes, optional: 3}", "{taskfile: ./missing.yml, optional: true}",
+	"{taskfile: ./Abad.yml, optional: true}", "{taskfile: ./Anover.yml, optional: true}", "{taskfile: ./Acyc.yml, optional: true}", "{taskfile: ./Amiss.yml, optional: true}",
+	"{taskfile: ./Abad.yml}", "./Amiss.yml", "{taskfile: ./Acyc.yml, flatten: true, optional: true}",
 	"https://example.invalid/r.git", "https://example.invalid/r.git//Taskfile.yml?ref=main", "git@example.invalid:r.git", "http://127.0.0.1:9/Taskfile.yml", "file:///", "://", "{group: {begin: x}}", "{group: }", "prefixed", "nosuch",
 }
 
